@@ -212,18 +212,22 @@ func c14BFS(x *mc.Cell, c cfg, depth int) {
 				case "ev:PauseInitiator":
 					api.Deliver(datatransfer.PauseInitiator, chid, datatransfer.Ongoing)
 				case "ev:status=Cancelling":
+					if terminalSeq < 0 && api.Subscribed() > 0 {
+						terminalSeq = doubles.NextSeq()
+					}
 					api.Deliver(datatransfer.Cancel, chid, datatransfer.Cancelling)
 					if !r.shut() {
 						r.shutAt = r.now
 						r.pending = ""
-						terminalSeq = doubles.NextSeq()
 					}
 				case "ev:status=Completed":
+					if terminalSeq < 0 && api.Subscribed() > 0 {
+						terminalSeq = doubles.NextSeq()
+					}
 					api.Deliver(datatransfer.CleanupComplete, chid, datatransfer.Completed)
 					if !r.shut() {
 						r.shutAt = r.now
 						r.pending = ""
-						terminalSeq = doubles.NextSeq()
 					}
 				case "ev:other-channel-error":
 					api.Deliver(datatransfer.SendDataError, otherChid, datatransfer.Failed)
@@ -257,7 +261,7 @@ func c14BFS(x *mc.Cell, c cfg, depth int) {
 				case "add-again":
 					flush()
 					got := add()
-					want := r.shut()
+					want := r.shut() || api.Count("close") > 0 // the monitor also forgets a channel it closed itself
 					if last && got != want {
 						x.Violate("C14", fmt.Sprintf("add-again;accepted=%v;want=%v", got, want), fmt.Sprintf("%s history=%v: adding the same channel again was accepted=%v; the monitor %s", c, rep.(map[string]any)["ops"], got, map[bool]string{true: "had seen the channel end and must have forgotten it", false: "is still monitoring it"}[want]), rep)
 					}
@@ -319,15 +323,16 @@ func c14BFS(x *mc.Cell, c cfg, depth int) {
 					}
 				}
 				// after the monitor saw a cleanup / terminal status: unsubscribed, no later close
-				if r.shut() && r.reason == "" {
+				if terminalSeq >= 0 {
 					if api.Subscribed() != 0 && !ended {
 						viol("still-subscribed-after-terminal", "the monitor is still subscribed after it saw the channel end")
 					}
-					if closes != 0 {
-						viol("closed-after-terminal", "the channel was closed with an error although the monitor had already seen it end")
+					for _, cl := range calls {
+						if cl.Kind == "close" && cl.Seq > terminalSeq {
+							viol("closed-after-terminal", "the channel was closed with an error after the monitor had seen it end")
+						}
 					}
 				}
-				_ = terminalSeq
 			}
 			key = r.key() + "|" + api.Log() + fmt.Sprintf("|sub%d end%v", api.Subscribed(), ended)
 		})
@@ -373,7 +378,7 @@ func init() {
 	}
 	for _, c := range quick {
 		c := c
-		mc.Register("C14", "monitor-bfs/"+c.String(), "quick", func(x *mc.Cell) { c14BFS(x, c, 4) })
+		mc.Register("C14", "monitor-bfs/"+c.String(), "quick", func(x *mc.Cell) { c14BFS(x, c, 6) })
 	}
 	for _, max := range []uint32{1, 2, 3} {
 		for _, acc := range []int{0, 2, 3} {
